@@ -133,8 +133,11 @@ func c18Upload(content []byte) (*Bucket, *mockChunks, *mockFiles, int) {
 	vf.Assume(chunkSize <= bufSize)
 	up := &UploadStream{context: context.Background(), bucket: b, id: "file", name: "f", chunkSize: chunkSize, buffer: make([]byte, bufSize)}
 	// write partition: up to three writes
-	cut1 := vf.Choice("cut1", len(content)+1)
-	cut2 := cut1 + vf.Choice("cut2", len(content)-cut1+1)
+	cut1, cut2 := len(content), len(content)
+	if vf.Param("onewrite", 0) == 0 {
+		cut1 = vf.Choice("cut1", len(content)+1)
+		cut2 = cut1 + vf.Choice("cut2", len(content)-cut1+1)
+	}
 	for _, part := range [][]byte{content[:cut1], content[cut1:cut2], content[cut2:]} {
 		n, err := up.Write(part)
 		vf.Assert(err == nil && n == len(part), "Write failed or was short")
@@ -209,7 +212,13 @@ func H_C18_download() {
 	steps := vf.Param("steps", 3)
 	for k := 0; k < steps; k++ {
 		sk := string(rune('0' + k))
-		if vf.Bool("isSeek" + sk) {
+		isSeek := false
+		if vf.Param("rsr", 0) == 1 {
+			isSeek = k%2 == 1 // read, seek, read, ...
+		} else {
+			isSeek = vf.Bool("isSeek" + sk)
+		}
+		if isSeek {
 			off := vf.Int64("off" + sk)
 			whence := vf.Choice("whence"+sk, 3)
 			// positions stay within the range where int arithmetic cannot wrap (stated bound)
